@@ -630,7 +630,7 @@ pub fn real_pool_crosscheck(seed: u64, tier: Tier) -> (Value, Vec<(Viol, Value)>
             2 => (1, rng.range(1, n.max(1))),
             _ => (rng.range(1, 8), rng.range(8, n.max(8))),
         };
-        let which = rng.below(6);
+        let which = rng.below(12);
         let rec = Rec { splits: Arc::new(Mutex::new(vec![])) };
         macro_rules! real {
             ($T:ty) => {{
@@ -750,7 +750,13 @@ pub fn real_pool_crosscheck(seed: u64, tier: Tier) -> (Value, Vec<(Viol, Value)>
             2 => real!(average::Kurtosis),
             3 => real!(M6),
             4 => real!(average::Min),
-            _ => real!(average::Max),
+            5 => real!(average::Max),
+            6 => real!(average::Skewness),
+            7 => real!(average::Moments4),
+            8 => real!(M4),
+            9 => real!(M5),
+            10 => real!(M8),
+            _ => real!(M10),
         }
     }
     (
